@@ -1,0 +1,7 @@
+//go:build !verif
+
+package jsonrpc2
+
+func verifPending(*conn, string, ID, bool) {}
+
+func verifWrite(*conn, string, Message, error) {}
